@@ -487,6 +487,12 @@ func (r *dRun) config() {
 	if r.scenario == scFatal {
 		r.viaLogger = true
 	}
+	if r.scenario == scNormal && c.Chance(1, 12) {
+		// a writer that is created and closed without ever being written to (a per-level
+		// writer whose level never occurred)
+		r.nWrites = 0
+		zsim.Probe("never_written")
+	}
 }
 
 func (r *dRun) summary() string {
@@ -767,7 +773,7 @@ func (r *dRun) post(s *zsim.Sim) *zsim.Violation {
 			if r.collisions == 0 && r.lateWrites() == 0 && inTime+r.alertSum != r.written() {
 				return viol("C11.count_mismatch", "no retry happened but delivered before Close returned(%d)+reported(%d) != written(%d)", inTime, r.alertSum, r.written())
 			}
-			if r.maxOut < r.ring && (r.alertSum != 0 || n != 0) {
+			if r.maxOut <= r.ring && (r.alertSum != 0 || n != 0) {
 				return viol("C11.drop_below_capacity", "never more than %d outstanding with ring %d, yet alerts=%d missing=%v", r.maxOut, r.ring, r.alertSum, ids)
 			}
 		case scFatal:
